@@ -18,13 +18,19 @@ static void run(std::vector<El>& v, int P, const char* what) {
     vf_outcome("sort %s n=%zu P=%d steals=%ld cmp=%ld", what, v.size(), P, vtbb::stats().steals, ncmp);
 }
 static const int SIZES[] = {500, 501, 502, 503, 504, 505, 506, 507, 508, 509, 510, 511, 512, 513, 514, 515, 516, 517, 518, 519, 520, 617, 811, 1200};
-static long NINV, NSHAPE, NPERM, NTERN;
+static long NINV, NSHAPE, NPERM, NTERN; static const int NSH = 21;
 static std::vector<El> sorted_input(int n) { std::vector<El> v(n); for (int i = 0; i < n; i++) v[i] = {2 * i, i}; return v; }
 static void scenario(long c) {
     if (c < NINV) { int P = 1 + (int)(c % 2); c /= 2; int si = 0; long off = c; while (off >= SIZES[si] - 1) { off -= SIZES[si] - 1; si++; } int n = SIZES[si]; std::vector<El> v = sorted_input(n); std::swap(v[off], v[off + 1]); char w[64]; snprintf(w, 64, "one inversion at %ld", off); run(v, P, w); return; }
     c -= NINV;
-    if (c < NSHAPE) { int P = 1 + (int)(c % 3); c /= 3; int shape = (int)(c % 6); c /= 6; int n = SIZES[c]; std::vector<El> v = sorted_input(n); const char* nm[] = {"sorted", "reverse", "all equal", "two values", "saw-tooth", "sorted with equal neighbours"};
+    if (c < NSHAPE) { int P = 1 + (int)(c % 3); c /= 3; int shape = (int)(c % NSH); c /= NSH; int n = SIZES[c]; std::vector<El> v = sorted_input(n); const char* nm[NSH] = {"sorted", "reverse", "all equal", "two values", "saw-tooth", "sorted with equal neighbours", "organ pipe", "maxima at the nine pivot probes", "minima at the nine pivot probes", "one big key first", "one small key last",
+            "stride 7", "stride 11 mod n-1", "stride 13 few values", "stride 17 mod n-3", "stride 19 pairs", "stride 23 mod 5", "stride 29", "stride 31 mod n/2", "stride 37 mod 3", "stride 41"};
         if (shape == 1) std::reverse(v.begin(), v.end()); else if (shape == 2) for (auto& e : v) e.key = 8; else if (shape == 3) for (auto& e : v) e.key = (e.id * 7 % 3 == 0) ? 10 : 20; else if (shape == 4) for (auto& e : v) e.key = 2 * (e.id % 13); else if (shape == 5) for (auto& e : v) e.key = e.id;
+        else if (shape == 6) for (auto& e : v) e.key = 2 * std::min(e.id, n - 1 - e.id);
+        else if (shape == 7 || shape == 8) { for (int q = 0; q <= 8; q++) { int pos = std::min(n - 1, q * (n / 8)); v[pos].key = shape == 7 ? 4 * n + 2 * q : -2 * q - 2; } }
+        else if (shape == 9) v[0].key = 4 * n; else if (shape == 10) v[n - 1].key = -4;
+        else { static const int st[10] = {7, 11, 13, 17, 19, 23, 29, 31, 37, 41}; int a = st[shape - 11]; int m = shape == 12 ? n - 1 : shape == 13 ? 9 : shape == 14 ? n - 3 : shape == 15 ? n / 2 + 1 : shape == 16 ? 5 : shape == 18 ? n / 2 : shape == 19 ? 3 : n;
+            for (auto& e : v) e.key = (shape == 15 ? 1 : 2) * (int)(((long)e.id * a + shape) % m); }
         run(v, P, nm[shape]); return; }
     c -= NSHAPE;
     if (c < NPERM) { int n = 0; long f = 1, base = 0; for (n = 1; n <= 6; n++) { f *= n; if (c < base + f) break; base += f; } long idx = c - base; std::vector<int> p(n); std::iota(p.begin(), p.end(), 0); for (long i = 0; i < idx; i++) std::next_permutation(p.begin(), p.end()); std::vector<El> v; for (int i = 0; i < n; i++) v.push_back({2 * p[i], i}); run(v, 2, "permutation"); return; }
@@ -32,6 +38,6 @@ static void scenario(long c) {
     { int n = 1; long base = 0, pw = 3; while (c >= base + pw) { base += pw; pw *= 3; n++; } long idx = c - base; std::vector<El> v; for (int i = 0; i < n; i++) { v.push_back({2 * (int)(idx % 3), i}); idx /= 3; } run(v, 2, "three-valued"); }
 }
 int main(int argc, char** argv) {
-    long inv = 0; for (int s : SIZES) inv += s - 1; NINV = 2 * inv; NSHAPE = 3L * 6 * (sizeof(SIZES) / sizeof(int)); NPERM = 1 + 2 + 6 + 24 + 120 + 720; NTERN = 3 + 9 + 27 + 81 + 243 + 729;
+    long inv = 0; for (int s : SIZES) inv += s - 1; NINV = 2 * inv; NSHAPE = 3L * NSH * (sizeof(SIZES) / sizeof(int)); NPERM = 1 + 2 + 6 + 24 + 120 + 720; NTERN = 3 + 9 + 27 + 81 + 243 + 729;
     return vf_main_cases(argc, argv, NINV + NSHAPE + NPERM + NTERN, scenario);
 }
